@@ -17,8 +17,9 @@ LEVEL = 'exploration'
 TECHNIQUE = 'runtime monitoring: stock component outputs/residuals, sub-jacobians and totals vs documented formula + complex step'
 RULE = ('per component random option sets: vec_size 1-4, length/size 1-4, shapes, scaling factors, units and '
         '*_units with sources in other units, 1-3 equations/products/magnitudes/splines per component with '
-        'shared inputs, MuxComp axes, EQConstraintComp/BalanceComp use_mult x normalize x rhs_val x default '
-        '(unconnected) inputs, BalanceComp solved with Newton against an affine ExecComp, LinearSystemComp '
+        'shared inputs, MuxComp axes and shape given by tuple, int or an array val, EQConstraintComp/BalanceComp '
+        'use_mult x normalize x rhs_val x default (unconnected) inputs, BalanceComp units through eq_units or '
+        'lhs_kwargs/rhs_kwargs (constructor and add_balance), solved with Newton against an affine ExecComp, LinearSystemComp '
         'vectorize_A x vec_size, SplineComp methods x x_cp_val/num_cp x vec_size; distinct = distinct '
         '(component, options); non-trivial = outputs and derivatives were compared')
 ASSUMPTIONS = [
@@ -37,7 +38,8 @@ COMPS = ['AddSubtractComp', 'MuxComp', 'DotProductComp', 'CrossProductComp', 'Ma
          'VectorMagnitudeComp', 'EQConstraintComp', 'BalanceComp', 'LinearSystemComp', 'SplineComp']
 REQUIRED_COUNTERS = ['comp:' + c for c in COMPS] + \
     ['obs:output', 'obs:partials', 'obs:totals-fwd', 'obs:totals-rev', 'obs:residual', 'obs:balance-solved',
-     'cell:units', 'cell:multi', 'cell:shared-input', 'cell:default-input'] + \
+     'cell:units', 'cell:multi', 'cell:shared-input', 'cell:default-input', 'cell:balance-ctor-kwargs',
+     'cell:mux-int-shape', 'cell:mux-array-val'] + \
     ['spline:' + m for m in ('slinear', 'lagrange2', 'lagrange3', 'cubic', 'akima', 'bsplines',
                              'scipy_slinear', 'scipy_cubic', 'scipy_quintic')]
 SHARD_TIMEOUT = {'quick': 900, 'thorough': 3600}
@@ -276,6 +278,11 @@ def gen_mux(rng):
         vars_.append({'name': 'v%d' % k, 'shape': list(shp), 'axis': axis, 'units': u, 'src_units': su,
                       'by_val': bool(rng.random() < 0.3)})
     vals = {'%s_%d' % (v['name'], i): rnd(rng, v['shape']).tolist() for v in vars_ for i in range(vs)}
+    for v in vars_:
+        # 1-D inputs: `shape` given as a plain int ("shape : int or tuple or list or None"); derived from an
+        # existing draw so that the random stream of the other cases is unchanged
+        v['shape_int'] = bool(len(v['shape']) == 1 and not v['by_val'] and
+                              int(round(abs(float(np.ravel(vals[v['name'] + '_0'])[0])) * 1e6)) % 2 == 0)
     return {'comp': 'MuxComp', 'opts': {'vec_size': vs, 'vars': vars_}, 'vals': vals,
             'mode': str(pick(rng, ['fwd', 'rev']))}
 
@@ -285,8 +292,12 @@ def judge_mux(case, acc, seed):
     o = case['opts']
     vs = o['vec_size']
     oc = 'ndim%d' % max(len(v['shape']) for v in o['vars']) + ('+multi' if len(o['vars']) > 1 else '')
+    if any(v.get('shape_int') for v in o['vars']):
+        oc = 'int-shape'      # input shape given as a plain int
+        acc.count('cell:mux-int-shape')
     if any(v['by_val'] for v in o['vars']):
         oc = 'array-val'      # input shape given through an array `val` instead of `shape`
+        acc.count('cell:mux-array-val')
     ctx = Ctx(case, acc, 'MuxComp', oc)
     ins, outs = [], []
     for v in o['vars']:
@@ -302,6 +313,8 @@ def judge_mux(case, acc, seed):
         for v in o['vars']:
             if v['by_val']:
                 c.add_var(v['name'], val=np.ones(tuple(v['shape'])), axis=v['axis'], units=v['units'])
+            elif v.get('shape_int'):
+                c.add_var(v['name'], shape=int(v['shape'][0]), axis=v['axis'], units=v['units'])
             else:
                 c.add_var(v['name'], shape=tuple(v['shape']), axis=v['axis'], units=v['units'])
         return c
@@ -508,6 +521,10 @@ def gen_eq(rng, comp):
         o['rhs'] = _rhs_vals(rng, shp).tolist()
         o['mult'] = rnd(rng, shp, 0.3, 3).tolist()
         o['state'] = rnd(rng, shp, -3, 3).tolist()
+        # BalanceComp: hand the equation units over through lhs_kwargs/rhs_kwargs instead of eq_units
+        # (derived from an existing draw so that the random stream of the other cases is unchanged)
+        o['units_by_kwargs'] = bool(comp == 'BalanceComp' and
+                                    int(round(abs(float(np.ravel(o['state'])[0])) * 1e6)) % 2 == 0)
         outs.append(o)
     return {'comp': comp, 'opts': {'outs': outs, 'ctor': bool(n == 1 and rng.random() < 0.4)},
             'mode': str(pick(rng, ['fwd', 'rev'])), 'solve': {'a': float(np.round(rng.uniform(0.5, 3), 3)),
@@ -593,7 +610,10 @@ def judge_eqconstraint(case, acc, seed):
 def judge_balance(case, acc, seed):
     import openmdao.api as om
     outs_o = case['opts']['outs']
-    ctx = Ctx(case, acc, 'BalanceComp', _eq_optclass(outs_o))
+    ctor_kwargs = bool(case['opts']['ctor'] and outs_o[0].get('units_by_kwargs'))
+    ctx = Ctx(case, acc, 'BalanceComp', 'ctor-kwargs' if ctor_kwargs else _eq_optclass(outs_o))
+    if ctor_kwargs:
+        acc.count('cell:balance-ctor-kwargs')
     guess_calls = []
 
     def guess(inputs, outputs, residuals):
@@ -607,6 +627,10 @@ def judge_balance(case, acc, seed):
                       normalize=o['normalize'])
             if o['custom_names']:
                 kw.update(lhs_name=ln, rhs_name=rn, mult_name=mn)
+            if o.get('units_by_kwargs'):
+                kw.pop('eq_units')
+                kw['lhs_kwargs'] = {'units': o['eq_units']}
+                kw['rhs_kwargs'] = {'units': o['eq_units']}
             if o.get('rhs_array'):
                 pass                      # shape comes from rhs_val
             elif o['shape_by'] == 'shape':
